@@ -5,7 +5,7 @@ From Centro Require Import Base.VecC13 Proofs.VecC13Proofs Model.MeasureC13 Proo
   Proofs.PadC13Proofs Proofs.TranslateC13Proofs Proofs.EllipseRowsC13.
 From Centro Require Model.Circle Model.CircleVec Model.Feret Proofs.CircleVecProofs Proofs.CircleVecStep Model.MecFeretC13 Proofs.MecFeretC13Proofs
   Spec.HullSpec Spec.MecSpec Spec.FeretSpec Spec.FeretBrute Proofs.OwnRowsC13 Proofs.PolygonDiscC13 Proofs.EndToEndC13 Proofs.MecVecOwnerC13 Proofs.MecVecInvC13 Proofs.MecVecSimC13 Proofs.HullBoundC13
-  Proofs.FeretProofs Spec.FeretLower Proofs.FeretMinC13 Model.HullAreaVecC13 Proofs.HullAreaVecC13Proofs.
+  Proofs.FeretProofs Spec.FeretLower Proofs.FeretMinC13 Proofs.FeretConeC13 Model.HullAreaVecC13 Proofs.HullAreaVecC13Proofs.
 From Centro Require Proofs.HullGuard Model.Hull Proofs.HullBatch Model.HullAreaC13 Proofs.HullAreaC13Proofs Model.MedianC18 Spec.SpecC18 Proofs.MedianC13Proofs Model.IndexesC18 Proofs.IndexesC18Proofs.
 Import ListNotations.
 Open Scope Z_scope.
@@ -568,16 +568,67 @@ Theorem C13_feret_extreme_pair_wide : forall PS V p q m,
 Proof. exact FeretMinC13.extreme_pair_wide. Qed.
 Print Assumptions C13_feret_extreme_pair_wide.
 
-(* ALL directions: _partial.  Proved: the bound for every direction from the antipodal cone cover (C14's cone_bound:
-   triangle inequality, squared, over Z).  Missing, named: ConeCover for every hull polygon = the planar lemma "the cone
-   of directions in which a given extreme pair stays extreme (four linear constraints from the two vertices' neighbours)
-   is spanned by two edge-flush directions" (direction continuity); with C13_feret_extreme_pair_exists / _wide it gives
-   ConeCover S bn bd and hence min over all directions = bf_min. *)
-Theorem C13_feret_min_all_directions_partial : forall PS wn wd,
-  0 <= wn -> 0 < wd -> FeretMinC13.ConeCover PS wn wd ->
-  FeretMinC13.width_lower (fun u => u <> (0, 0)) PS wn wd.
-Proof. exact FeretMinC13.feret_min_all_directions_of_cover. Qed.
-Print Assumptions C13_feret_min_all_directions_partial.
+(* ALL directions, Full.  The planar cone lemma ("direction continuity"): for constraint vectors c1..c4, c1 and c2
+   independent, and u <> 0 with <c, u> >= 0, there are R, L - each a quarter turn of one of the constraints - inside the
+   cone {m : <c, m> >= 0 for all four} with u between them.  The four constraints are the edges at the two vertices of
+   an extreme pair, so R and L are edge-flush directions in which the same pair is still extreme. *)
+Theorem C13_feret_cone_span : forall c1 c2 c3 c4 u : FeretLower.vec,
+  FeretLower.crossv c1 c2 <> 0 -> u <> (0, 0) ->
+  0 <= FeretLower.dotv c1 u -> 0 <= FeretLower.dotv c2 u -> 0 <= FeretLower.dotv c3 u -> 0 <= FeretLower.dotv c4 u ->
+  let cs := [c1; c2; c3; c4] in
+  exists ci ck, In ci cs /\ In ck cs /\
+    let R := FeretConeC13.negv (FeretConeC13.Jv ci) in let L := FeretConeC13.Jv ck in
+    (forall c, In c cs -> 0 <= FeretLower.dotv c R) /\ (forall c, In c cs -> 0 <= FeretLower.dotv c L) /\
+    0 <= FeretLower.crossv R u /\ FeretLower.crossv L u <= 0 /\ 0 <= FeretLower.crossv R L.
+Proof. exact FeretConeC13.cone_span. Qed.
+Print Assumptions C13_feret_cone_span.
+
+(* every direction u is covered: either it lies in a proper cone of two edge-flush directions sharing one extreme
+   pair at least sqrt(bf_min) apart in both, or it is parallel to one such edge-flush direction *)
+Theorem C13_feret_cone_cover_hull : forall PS V bn bd,
+  HullSpec.HullSpec PS V -> (3 <= length V)%nat -> FeretBrute.bf_min V = Some (bn, bd) ->
+  FeretConeC13.ConeCover2 PS bn bd.
+Proof. exact FeretConeC13.cone_cover_hull. Qed.
+Print Assumptions C13_feret_cone_cover_hull.
+
+(* THE semantic statement of the minimum Feret diameter: bf_min V = min over hull edges of (max over vertices of
+   cross^2) / |edge|^2 is attained by S as a squared width, and NO strip containing S - in any direction u <> 0 - is
+   narrower: bn/bd = min over all directions of (max_s <u,s> - min_s <u,s>)^2 / |u|^2.  Exact integers, no square root. *)
+Theorem C13_feret_min_all_directions : forall PS V,
+  HullSpec.HullSpec PS V -> (3 <= length V)%nat ->
+  exists bn bd, FeretBrute.bf_min V = Some (bn, bd) /\ 0 < bd /\
+    FeretMinC13.width_attained PS bn bd /\ FeretMinC13.width_lower (fun u => u <> (0, 0)) PS bn bd.
+Proof. exact FeretConeC13.feret_min_all_directions. Qed.
+Print Assumptions C13_feret_min_all_directions.
+
+(* end to end over all directions, no per-run certificate: the minimum the calipers sweep returns on the rows
+   convex_hull_ijv emits for the requested label is the minimum width of that label's own pixel set *)
+Theorem C13_feret_min_end_to_end_all : forall ijv indexes r,
+  NoDup indexes -> (r < length indexes)%nat -> OwnRowsC13.nonneg_rows ijv ->
+  let l := nth r indexes 0 in
+  let S := HullSpec.pts_of ijv l in
+  let V := OwnRowsC13.own_hull ijv l in
+  (3 <= length V)%nat ->
+  exists mx mq bn bd,
+    nth r (MecFeretC13.feret_rows (fst (Hull.convex_hull_ijv ijv indexes))) (Feret.sweep []) = Some (mx, mq) /\
+    0 < snd mq /\ 0 < bd /\ fst mq * bd = bn * snd mq /\
+    FeretMinC13.width_attained S bn bd /\ FeretMinC13.width_lower (fun u => u <> (0, 0)) S bn bd.
+Proof. exact EndToEndC13.feret_min_end_to_end_all. Qed.
+Print Assumptions C13_feret_min_end_to_end_all.
+
+(* the remaining non-empty hulls (one or two vertices: single pixels, pixel lines): the sweep returns 0/1 and the pixel
+   set has width 0 (it lies on one line) *)
+Theorem C13_feret_min_end_to_end_degenerate : forall ijv indexes r,
+  NoDup indexes -> (r < length indexes)%nat -> OwnRowsC13.nonneg_rows ijv ->
+  let l := nth r indexes 0 in
+  let S := HullSpec.pts_of ijv l in
+  let V := OwnRowsC13.own_hull ijv l in
+  (1 <= length V <= 2)%nat ->
+  exists mx,
+    nth r (MecFeretC13.feret_rows (fst (Hull.convex_hull_ijv ijv indexes))) (Feret.sweep []) = Some (mx, (0, 1)) /\
+    FeretMinC13.width_attained S 0 1 /\ FeretMinC13.width_lower (fun u => u <> (0, 0)) S 0 1.
+Proof. exact EndToEndC13.feret_min_end_to_end_degenerate. Qed.
+Print Assumptions C13_feret_min_end_to_end_degenerate.
 
 (* ---- calculate_convex_hull_areas AS WRITTEN (Model/HullAreaVecC13.v): global hull rows, counts, index_of_label
    tables, cumulative offsets, compaction to the non-degenerate labels, per-row gathers, within_label_index, the modulo
